@@ -435,6 +435,47 @@ func (c *Case) Preprocess() (parser.Expr, error) {
 // as step-invariant: its window slides with the step, over whatever the storage happens to return
 // outside the range that was selected (one querier for the whole query in the reference engine,
 // one per selector in this one). What comes out is not determined by the query and the data.
+// movingParamUnderWrapper: PreprocessExpr wrapped an aggregation as step invariant although its
+// parameter is not (it looks at the aggregated expression only): the reference engine - and this
+// one after it - evaluates the whole aggregation once at the window start (known finding
+// KF-stepinvariant-moving-param).
+func movingParamUnderWrapper(e parser.Expr) bool {
+	found := false
+	parser.Inspect(e, func(n parser.Node, _ []parser.Node) error {
+		si, ok := n.(*parser.StepInvariantExpr)
+		if !ok {
+			return nil
+		}
+		inner := si.Expr
+		for {
+			if p, ok := inner.(*parser.ParenExpr); ok {
+				inner = p.Expr
+				continue
+			}
+			break
+		}
+		a, ok := inner.(*parser.AggregateExpr)
+		if !ok || a.Param == nil {
+			return nil
+		}
+		parser.Inspect(a.Param, func(m parser.Node, _ []parser.Node) error {
+			switch x := m.(type) {
+			case *parser.VectorSelector:
+				if x.Timestamp == nil {
+					found = true
+				}
+			case *parser.Call:
+				if x.Func.Name == "time" {
+					found = true
+				}
+			}
+			return nil
+		})
+		return nil
+	})
+	return found
+}
+
 func atInAggParam(e parser.Expr) bool {
 	found := false
 	parser.Inspect(e, func(n parser.Node, _ []parser.Node) error {
